@@ -887,3 +887,32 @@ def _stmt1(node):
     while n is not None and not isinstance(n, ast.stmt):
         n = getattr(n, '_parent', None)
     return n
+
+
+_C01_GUARDS = [
+    (REJ + '.update', 'self._init_samples_lazy(batch)',
+     [("self.state['samples'] is None", True)],
+     'the sample buffers are created once, by the first consumed batch'),
+    (REJ + '.extract_result', 'raise:0',
+     [("self.state['samples'] is None", True)],
+     'extraction is refused only while nothing was consumed'),
+    (REJ + '.extract_result', 'self._update_distances()',
+     [('self.adaptive', True)], 'distances are recomputed only for an adaptive distance'),
+    (REJ + '._init_samples_lazy', 'raise:0', [('_n in batch', False)],
+     'a requested output that the batch lacks is refused'),
+    (REJ + '._init_samples_lazy', 'raise:1', [('is_array(_x)', False)],
+     'a non-array output is refused'),
+    (REJ + '._init_samples_lazy', 'raise:2', [('is_array(_x)', True),
+                                              ('len(_x) != self.batch_size', True)],
+     'an output of another length than the batch size is refused'),
+]
+
+
+@obligation('C01-k', 'T11', 'the rejection sampler initialises, refuses and recomputes on the right '
+            'side of its tests (frozen table of {} rows)'.format(len(_C01_GUARDS)),
+            floor=len(_C01_GUARDS),
+            necessary='buffers re-created for every batch discard the accepted rows; an output of '
+                      'another length than the batch size misaligns parameters and distances')
+def c01_k(ctx):
+    from .base import check_guard_table
+    check_guard_table(ctx, _C01_GUARDS)
